@@ -1102,7 +1102,9 @@ fn parse_arguments(arguments: &[OsString], cwd: &Path) -> CompilerArguments<Pars
                 return CompilerArguments::NotCompilation
             }
             Some(LinkLibrary(ArgLinkLibrary { kind, name })) => {
-                if kind == "static" {
+                // `static:+whole-archive`, `static:-bundle`, ...: modifiers do not change which
+                // archive rustc reads, its content is an input all the same.
+                if kind == "static" || kind.starts_with("static:") {
                     static_lib_names.push(name.to_owned())
                 }
             }
